@@ -542,6 +542,55 @@ def run(ck: Check):
         ck.count("plan_" + plan)
         if ok:
             sc.append((w, chunk, sigma, events, outs))
+    # (own generator) two legal call sequences:
+    # (a) batch: the reference array is REFILLED IN PLACE and fit() is called again on the same array object: compare must
+    #     use the new contents (nothing cached from the first fit may survive);
+    # (b) streaming: `window_size` re-assigned to its current value in mid-stream is a no-op (the window must not be thrown
+    #     away while the counter runs on)
+    import random as _random
+    from frouros.detectors.data_drift.batch import MMD as _MMDb
+    from frouros.detectors.data_drift.streaming import MMD as _MMDs
+
+    prng = _random.Random(90909)
+    for chunk in (None, 3):
+        buf = np.array([prng.gauss(0, 1) for _ in range(9)])
+        Y = np.array([prng.gauss(0.8, 1.2) for _ in range(7)])
+        try:
+            det = _MMDb(kernel=kernel_of(0.7), chunk_size=chunk)
+            det.fit(X=buf)
+            det.compare(X=Y)
+            buf[:] = np.array([prng.gauss(2.0, 0.5) for _ in range(9)])
+            det.fit(X=buf)
+            got = float(det.compare(X=Y)[0].distance)
+        except Exception as e:  # noqa: BLE001
+            got = repr(e)
+        exp = mmd_direct(buf, Y, 0.7)
+        ck.case(dict(kind="refit-same-array", chunk=chunk), nontrivial=True, key=repr(("refit-same", chunk)))
+        ck.count("refit_same_array_cases")
+        if isinstance(got, str) or not close(got, exp, RTOL, ATOL):
+            ck.violation(dict(clause="estimator", path="refit-same-array"), dict(replay_kind="refit", what="the reference array was refilled in place and fit() called again on it: compare does not use the new contents", X2=buf.tolist(), Y=Y.tolist(), sigma=0.7, chunk_size=chunk, got=got, expected=exp))
+    for w in (4, 6):
+        ref = np.array([prng.gauss(0, 1) for _ in range(8)])
+        stream = [prng.gauss(0.5, 1) for _ in range(3 * w)]
+        try:
+            d1, d2 = _MMDs(window_size=w, kernel=kernel_of(0.7)), _MMDs(window_size=w, kernel=kernel_of(0.7))
+            d1.fit(X=ref)
+            d2.fit(X=ref)
+            o1, o2 = [], []
+            for t, v in enumerate(stream):
+                if t == w + 2:
+                    d1.window_size = d1.window_size
+                r1, _ = d1.update(value=v)
+                r2, _ = d2.update(value=v)
+                o1.append(None if r1 is None else float(r1.distance))
+                o2.append(None if r2 is None else float(r2.distance))
+            bad = None if o1 == o2 else next(i for i, (a, b_) in enumerate(zip(o1, o2)) if a != b_)
+        except Exception as e:  # noqa: BLE001
+            bad, o1, o2 = repr(e), [], []
+        ck.case(dict(kind="window-size-reassigned", w=w), nontrivial=True, key=repr(("wsr", w)))
+        ck.count("window_size_reassigned_cases")
+        if bad is not None:
+            ck.violation(dict(clause="streaming", scenario="window-size-reassigned"), dict(what="`detector.window_size = detector.window_size` in mid-stream changed the detector's outputs", w=w, reference=ref.tolist(), stream=stream, first_difference=bad, with_assignment=o1, without=o2))
     # constructor boundaries (correspondence only)
     for w, chunk in ((0, None), (-1, 2), (1, 0), (0, 0)):
         sc.append((w, chunk, None, [], impl_stream(w, chunk, None, [])))
